@@ -70,6 +70,8 @@ def install_shim():
         return _INSTALLED[0]
     out = build_libs()
     import numpy
+    if REPO != "/repo" and REPO not in sys.path:
+        sys.path.insert(0, REPO)        # experiments against a scratch tree: its Python sources too, not only its C sources
     import ciderpress.lib.load as L
     orig = L.load_library
 
